@@ -12,6 +12,11 @@ COQ_IMPORTS = "From Mesa Require Import Model.LegacyNbhd Model.LegacyHexNet."
 COQ_CASE_TYPE = "case9"
 COQ_RUN = "run_case9"
 TABLE_CONSTRUCTS = ["grid_cache_key", "lhex_even_col", "lhex_odd_col", "hex_cache_key"]
+SOURCE_FUNCS = [("mesa/space.py", "_Grid.get_neighborhood"), ("mesa/space.py", "_Grid.iter_neighbors"),
+                ("mesa/space.py", "_Grid.out_of_bounds"), ("mesa/space.py", "_Grid.iter_cell_list_contents"),
+                ("mesa/space.py", "_HexGrid.get_neighborhood"), ("mesa/space.py", "_HexGrid.iter_neighbors"),
+                ("mesa/space.py", "NetworkGrid.get_neighborhood"), ("mesa/space.py", "NetworkGrid.get_neighbors"),
+                ("mesa/space.py", "NetworkGrid.iter_cell_list_contents")]
 RULE = ("histories = one legacy grid (class, w, h, torus, random placement of agents) + a sequence of "
         "get/iter_neighborhood, get/iter_neighbors, get_cell_list_contents calls on that one instance; the first "
         "cases enumerate all (w,h)<=3x3 x torus x pos x r<=4 x moore x include_center exhaustively in shuffled order, "
